@@ -501,6 +501,12 @@ def main():
 
 def write_evidence(pid, tier, seed, lean, ops, classes, distinct, nviol, t0, gen, extra=None):
     os.makedirs(os.path.join(ROOT, 'evidence'), exist_ok=True)
+    if not lean['obligations']:
+        # the Lean build or audit did not get as far as printing the theorems: the obligations are still those of Audit/<id>.lean, none discharged
+        try:
+            lean = dict(lean, obligations=max(1, len(re.findall(r'^#print axioms', open(os.path.join(LEAN, 'WebPkg', 'Audit', f'{pid}.lean')).read(), re.M))))
+        except OSError:
+            lean = dict(lean, obligations=1)
     cov = {
         'obligations': lean['obligations'],
         'discharged': lean['discharged'],
